@@ -37,6 +37,10 @@ FORMS = [
     ("{y} = (long)({x} * {x});", ["{y} = {x} * {x};"], True),
     ("{y} = (int){x} + {z};", ["{y} = {x} + {z};"], True), ("{y} = {x} - (int){z};", ["{y} = {x} - {z};"], True),
     ("{y} = (int)-{x};", ["{y} = {x} * 2;"], True), ("{y} = (int)5;", ["{y} = 5;"], False), ("{y} = -3;", ["{y} = 3;"], False),
+    # every cast type is transparent, not only int / long
+    ("{y} = (_Bool){x};", ["{y} = {x};"], False), ("{y} = (unsigned char){x};", ["{y} = {x};"], False), ("{y} = (const long){x};", ["{y} = {x};"], False),
+    ("{y} = (_Bool)({x} + {z});", ["{y} = {x} + {z};"], True), ("{y} = (short){x} * {z};", ["{y} = {x} * {z};"], True),
+    ("{y} = (unsigned){x}++;", ["{y} = {x};", "{x} = {x} + 1;"], True), ("{y} = (double)-{x};", ["{y} = {x} * 2;"], True),
     # literals of every kind under a sign; two literals of which one is cast
     ("{y} = -1.5;", ["{y} = 3;"], False), ("{y} = -0x10;", ["{y} = 3;"], False), ("{y} = -10L;", ["{y} = 3;"], False),
     ("{y} = -7u;", ["{y} = 3;"], False), ("{y} = -'A';", ["{y} = 3;"], False), ("{y} = +2.5e3;", ["{y} = 3;"], False),
